@@ -3,7 +3,10 @@ package main
 import (
 	"encoding/json"
 	"fmt"
+	"math/big"
+	"os"
 	"sort"
+	"strings"
 
 	clip "github.com/bolom009/go-clipper2"
 )
@@ -166,47 +169,272 @@ func c04CheckN(o *Oracle, c treeCase) (ok bool, kind, detail, resp string, culpr
 	return true, "", "", resp, nil
 }
 
-// a nesting failure is attributed to the tree builder's "no owner" site when one of the polygons
-// involved was attached while its owner link was nil — from the start (treeNoOwner) or after the
-// owner chain was exhausted (treeOwnerExhausted) — i.e. it was placed at the top level without any
-// containment test (KNOWN_FINDINGS.txt: site:tree-no-owner)
+// Attribution of a nesting failure to one of the known defect sites (KNOWN_FINDINGS.txt).  Each
+// attribution re-runs the 64-bit tree build (for the D variant: on the quantised input, which is
+// what the D engine runs internally) under the event recorder and requires the recorded events
+// to show the named site for the very polygon the check complains about:
+//
+//	site:tree-no-owner            the node was attached while its owner link was nil from the start
+//	site:tree-owner-exhausted     every candidate on the node's owner chain was rejected by the
+//	                              containment test, so it was attached at the top level
+//	site:tree-owner-not-innermost a candidate was accepted that does contain the node (the check's
+//	                              complaint is orientation/level, not containment) but is not the
+//	                              innermost container
+//	site:ring-joins-hole-and-outer a sibling ring that visits a vertex twice (a hole lobe hanging
+//	                              on an outer ring after horizontal joins) overlaps its sibling
+//	site:zero-area-ring-flat-only the flat result holds extra rings of zero area (empty bounds)
+//	                              that the tree builder skips
 func c04Sig(o *Oracle, c treeCase) string {
-	_, _, _, _, culprits := c04CheckN(o, c)
-	if c.D || len(culprits) == 0 {
+	_, kind, _, _, culprits := c04CheckN(o, c)
+	S, C := c.Subject, c.Clip
+	if c.D {
+		S = clip.ScalePathsDToPaths64(clip.Paths64ToPathsD(c.Subject), 100)
+		C = clip.ScalePathsDToPaths64(clip.Paths64ToPathsD(c.Clip), 100)
+	}
+	if kind == "multiset" {
+		var flat clip.Paths64
+		var nodes []tnode
+		if safeCall(func() {
+			flat = clip.BooleanOpPaths64(clip.ClipType(c.CT), S, C, clip.FillRule(c.FR))
+			if c.D {
+				nodes = flatten(clip.BooleanOpPolyTreeD(clip.ClipType(c.CT), clip.Paths64ToPathsD(c.Subject), clip.Paths64ToPathsD(c.Clip), clip.FillRule(c.FR), 2).PolyPathBase)
+			} else {
+				nodes = flatten(clip.BooleanOpPolyTree64(clip.ClipType(c.CT), S, C, clip.FillRule(c.FR)).PolyPathBase)
+			}
+		}) != "" {
+			return sigOf(c)
+		}
+		have := map[string]int{}
+		for _, n := range nodes {
+			have[canonRot(n.poly)]++
+		}
+		extraZero := 0
+		for _, p := range flat {
+			k := canonRot(p)
+			if have[k] > 0 {
+				have[k]--
+				continue
+			}
+			if area2(p) != 0 {
+				return sigOf(c)
+			}
+			extraZero++
+		}
+		for _, v := range have {
+			if v != 0 {
+				return sigOf(c)
+			}
+		}
+		if extraZero > 0 {
+			return "site:zero-area-ring-flat-only"
+		}
 		return sigOf(c)
 	}
+	if len(culprits) == 0 {
+		return sigOf(c)
+	}
+	if kind == "sibling-overlap" || kind == "not-inside-parent" {
+		for _, q := range culprits {
+			if selfTouching(q) {
+				return "site:ring-joins-hole-and-outer"
+			}
+		}
+	}
+	var nodes []tnode
 	traceMu.Lock()
 	evs := clip.VTraceRun(func() {
-		safeCall(func() { clip.BooleanOpPolyTree64(clip.ClipType(c.CT), c.Subject, c.Clip, clip.FillRule(c.FR)) })
+		safeCall(func() {
+			nodes = flatten(clip.BooleanOpPolyTree64(clip.ClipType(c.CT), S, C, clip.FillRule(c.FR)).PolyPathBase)
+		})
 	})
 	traceMu.Unlock()
 	for _, e := range evs {
-		if e.Kind != "treeNoOwner" && e.Kind != "treeOwnerExhausted" {
-			continue
-		}
 		for _, q := range culprits {
-			if canonRot(q) == canonRot(clip.Path64(e.Pts)) {
-				return "site:tree-no-owner"
+			if canonRot(q) != canonRot(clip.Path64(e.Pts)) {
+				continue
+			}
+			self := -1
+			for i, n := range nodes {
+				if canonRot(n.poly) == canonRot(q) {
+					self = i
+				}
+			}
+			if self < 0 {
+				continue
+			}
+			cont := innermostContainer(nodes, self)
+			tag := ""
+			if os.Getenv("HX_C04_STATS") != "" {
+				tag = fmt.Sprintf(":container=%v:parentIsIt=%v:toplevel=%v", cont >= 0, cont == nodes[self].parent, nodes[self].parent < 0)
+			}
+			switch e.Kind {
+			case "treeNoOwner":
+				return "site:tree-no-owner" + tag
+			case "treeOwnerExhausted":
+				return "site:tree-owner-exhausted" + tag
+			case "treeOwnerAccepted":
+				if kind == "hole-orientation" || (kind == "sibling-overlap" && cont >= 0 && cont != nodes[self].parent) {
+					return "site:tree-owner-not-innermost" + tag
+				}
 			}
 		}
 	}
 	return sigOf(c)
 }
 
+// exact point-in-polygon on integers: 1 inside, 0 on the boundary, -1 outside (even-odd rule)
+func pipExact(pt clip.Point64, poly clip.Path64) int {
+	in := false
+	n := len(poly)
+	for i := 0; i < n; i++ {
+		a, b := poly[i], poly[(i+1)%n]
+		// on the segment?
+		cr := new(big.Int).Sub(
+			new(big.Int).Mul(big.NewInt(b.X-a.X), big.NewInt(pt.Y-a.Y)),
+			new(big.Int).Mul(big.NewInt(b.Y-a.Y), big.NewInt(pt.X-a.X)))
+		if cr.Sign() == 0 && min(a.X, b.X) <= pt.X && pt.X <= max(a.X, b.X) && min(a.Y, b.Y) <= pt.Y && pt.Y <= max(a.Y, b.Y) {
+			return 0
+		}
+		if (a.Y > pt.Y) != (b.Y > pt.Y) {
+			// crossing of the ray to +x: sign of cr relative to the edge direction
+			s := cr.Sign()
+			if b.Y < a.Y {
+				s = -s
+			}
+			if s < 0 {
+				in = !in
+			}
+		}
+	}
+	if in {
+		return 1
+	}
+	return -1
+}
+
+// selfTouching reports whether a ring passes through one of its own vertices twice or runs a
+// vertex onto one of its other edges (a ring that is really two lobes hanging together)
+func selfTouching(q clip.Path64) bool {
+	n := len(q)
+	for i, v := range q {
+		for j := 0; j < n; j++ {
+			k := (j + 1) % n
+			if j == i || k == i {
+				continue
+			}
+			if pipExact(v, clip.Path64{q[j], q[k]}) == 0 {
+				return true
+			}
+		}
+	}
+	return false
+}
+
+// ringInside reports whether ring q lies inside ring p: no vertex of q outside p, and at least
+// one vertex (or edge midpoint, doubled coordinates) strictly inside
+func ringInside(q, p clip.Path64) bool {
+	strict := false
+	for i, v := range q {
+		switch pipExact(v, p) {
+		case -1:
+			return false
+		case 1:
+			strict = true
+		}
+		w := q[(i+1)%len(q)]
+		p2 := make(clip.Path64, len(p))
+		for k := range p {
+			p2[k] = clip.Point64{X: 2 * p[k].X, Y: 2 * p[k].Y}
+		}
+		switch pipExact(clip.Point64{X: v.X + w.X, Y: v.Y + w.Y}, p2) {
+		case -1:
+			return false
+		case 1:
+			strict = true
+		}
+	}
+	return strict
+}
+
+// innermostContainer returns the index of the smallest-area node polygon (other than `self`)
+// that contains nodes[self].poly, or -1
+func innermostContainer(nodes []tnode, self int) int {
+	best := -1
+	var bestA int64
+	for j, n := range nodes {
+		if j == self || len(n.poly) < 3 {
+			continue
+		}
+		if ringInside(nodes[self].poly, n.poly) {
+			a := area2(n.poly)
+			if a < 0 {
+				a = -a
+			}
+			if best < 0 || a < bestA {
+				best, bestA = j, a
+			}
+		}
+	}
+	return best
+}
+
+func genRectRows(r *Rng) clip.Paths64 {
+	var out clip.Paths64
+	rows := r.Range(1, 2)
+	for row := 0; row < rows; row++ {
+		y0 := int64(row) * 30
+		y1 := y0 + int64(r.Range(2, 4))*10
+		x := int64(r.Intn(3)) * 10
+		for k := r.Range(2, 5); k > 0; k-- {
+			w := int64(r.Range(2, 8)) * 10
+			p := clip.Path64{{X: x, Y: y0}, {X: x + w, Y: y0}, {X: x + w, Y: y1}, {X: x, Y: y1}}
+			if r.Bool() {
+				p = clip.ReversePath(p)
+			}
+			out = append(out, rotate(p, r.Intn(4)))
+			x += int64(r.Range(1, 6)) * 10
+		}
+		for k := r.Range(0, 3); k > 0; k-- {
+			sx, sy := int64(r.Range(0, 11))*10, y0+int64(r.Range(0, 1))*10
+			q := clip.Path64{{X: sx, Y: sy}, {X: sx + 10, Y: sy}, {X: sx + 10, Y: sy + 10}, {X: sx, Y: sy + 10}}
+			if r.Chance(0.7) {
+				q = clip.ReversePath(q)
+			}
+			out = append(out, q)
+		}
+	}
+	return out
+}
+
 func init() {
 	stages["c04-search"] = func(ctx *Ctx, cnt func(q, t int) int, replay string) Result {
 		col := NewCollector("C04", "search", "C01's generators biased to nested rings, touching and split polygons; BooleanOpPolyTree64 / BooleanOpPolyTreeD vs the flat result: multiset equality of polygons up to start rotation, level alternation, IsHole ⇔ negative exact area, node ⊆ parent and siblings disjoint outside the 2-band (Lean oracle); non-trivial = tree depth ≥ 2; distinct by input hash")
-		parallelFor(ctx, cnt(2500, 150000), true, col, func(o *Oracle, i int) {
+		parallelFor(ctx, cnt(40000, 400000), true, col, func(o *Oracle, i int) {
 			r := NewRng(ctx.Seed, "c04", i)
 			c := treeCase{boolCase: genBoolCase(r, ctx.Tier), D: r.Chance(0.2)}
 			if r.Chance(0.4) {
 				g := GenCfg{Grid: r.Range(6, 12), Unit: 10}
 				c.Subject = append(c.Subject, genNested(r, g, r.Range(2, 5))...)
 			}
+			if r.Chance(0.35) {
+				// touch-heavy axis-aligned input: rows of overlapping rectangles of either orientation
+				// sharing their top and bottom lines (horizontal joins cut output rings into pieces),
+				// with small squares (holes / islands) inside
+				c.Subject, c.Clip = genRectRows(r), nil
+				if r.Chance(0.3) {
+					c.Clip = genRectRows(r)
+				}
+				c.CT = []int{2, 2, 4, 3, 1}[r.Intn(5)]
+				c.FR = []int{1, 1, 0, 2, 3}[r.Intn(5)]
+			}
 			if c.D {
 				// keep scaled coordinates small
 				c.Subject = mapPts(c.Subject, func(p P) P { return P{X: p.X % 100000, Y: p.Y % 100000} })
 				c.Clip = mapPts(c.Clip, func(p P) P { return P{X: p.X % 100000, Y: p.Y % 100000} })
+			}
+			if d := os.Getenv("HX_DUMP_CASE"); d != "" && d == fmt.Sprint(i) {
+				b, _ := json.Marshal(c)
+				fmt.Fprintf(os.Stderr, "DUMP %s\n", b)
 			}
 			ok, kind, detail, resp := c04Check(o, c)
 			depth := 0
@@ -219,6 +447,7 @@ func init() {
 			col.AddN("faces_judged", statOf(resp, "faces"))
 			col.Sample(c)
 			if !ok && !col.KindFull(kind) {
+				origin := sigOf(c)[6:]
 				hadClip := c.Clip != nil
 				sh := shrinkSets([]clip.Paths64{c.Subject, c.Clip}, func(s []clip.Paths64) bool {
 					cc := c
@@ -237,7 +466,13 @@ func init() {
 					c.Clip = sh[1]
 				}
 				_, _, detail, _ = c04Check(o, c)
-				col.Violate(Violation{Property: "C04", Kind: kind, Signature: c04Sig(o, c), Detail: detail, Case: c, Stream: "c04", Index: i, Seed: ctx.Seed})
+				sig := c04Sig(o, c)
+				if strings.HasPrefix(sig, "site:tree-") {
+					// occurrences of the tree-owner findings are identified by the generated input too
+					// (KNOWN_FINDINGS.txt lists the inputs of the registered runs)
+					sig += "@" + origin
+				}
+				col.Violate(Violation{Property: "C04", Kind: kind, Signature: sig, Detail: detail, Case: c, Stream: "c04", Index: i, Seed: ctx.Seed})
 			}
 		})
 		return col.Finish()
